@@ -2,6 +2,7 @@ import Model
 import Proofs.Walk
 import Proofs.DepGlobal
 import Proofs.Deadline
+import Proofs.BackGlobal
 import Proofs.WFCheck
 /-!
 C04 — dependencies and gaps are respected (forward mode end to end; backward mode via the deadline formula).
@@ -133,6 +134,19 @@ theorem backward_end_respects_successor (e : Env) (wf : WF e) (σ : St) (t s : N
   have hd : deadlineOf e σ t = latestEnd e σ t := by unfold deadlineOf; rw [hns]
   have := latestEnd_le_succ e σ t s hs ss hss
   exact ⟨v, hv, by omega⟩
+
+/-- **C04 for whole projects (backward mode)**: after scheduling ANY well-formed project, every backward (ALAP) effort
+    task that is reported as scheduled and whose deadline comes from its successors (no end of its own, none inherited
+    from a container: `prepare` left it without an end) ends at or before `start(s) − gap` of every successor `s` — the
+    leaves whose own or inherited finish-to-start edges name the task or one of its enclosing containers, `gap` being the
+    largest gap such an edge asks for — in the FINAL schedule; and every such successor is scheduled. -/
+theorem backward_deps_respected (e : Env) (wf : WF e) (t : Nat) (hel : EffLeaf e t)
+    (hns : ((prepare e (initState e)).tst t).stop = none)
+    (hs : ((runScenario e).tst t).scheduled = true) (hfw : ((runScenario e).tst t).forward = false)
+    (s : Nat) (hsucc : s ∈ successors e t) :
+    ((runScenario e).tst s).scheduled = true ∧
+    ∀ ss v, ((runScenario e).tst s).start = some ss → ((runScenario e).tst t).stop = some v → v + succGap e t s ≤ ss :=
+  runScenario_backOK e wf t hel hns (runScenario_scheduled_done e t hel hs) hfw s hsucc
 
 /-- backward mode: the deadline of a predecessor is at most (successor start − the largest gap the
     successor asks towards it or an enclosing container), for every scheduled successor -/
